@@ -28,12 +28,15 @@ fn entries<T: Tier>(rh: bool, eye: [T; 3], dir: [T; 3], up: [T; 3]) -> (Vec<Entr
         aux.borrow_mut().push((format!("{name}/bottom-row=0,0,0,1"), vec![a[0][3], a[1][3], a[2][3], a[3][3]], vec![T::zero(), T::zero(), T::zero(), T::one()]));
     };
     #[allow(deprecated)]
-    if rh {
-        // the deprecated spellings are documented as the right-handed constructors
-        push4("Matrix4::look_at_dir (deprecated)", Matrix4::look_at_dir(e, d, u));
-        push4("Matrix4::look_at (deprecated)", Matrix4::look_at(e, c, u));
-        push4("Transform<Matrix4>::look_at (deprecated)", <Matrix4<T> as Transform<Point3<T>>>::look_at(e, c, u));
+    let deprecated_rh: Vec<(&'static str, Matrix4<T>)> = if rh {
+        // the deprecated spellings are documented as the right-handed constructors (judged after the current ones, so that
+        // the reference of the agreement clause is a current constructor)
+        vec![("Matrix4::look_at_dir (deprecated)", Matrix4::look_at_dir(e, d, u)), ("Matrix4::look_at (deprecated)", Matrix4::look_at(e, c, u)), ("Transform<Matrix4>::look_at (deprecated)", <Matrix4<T> as Transform<Point3<T>>>::look_at(e, c, u))]
     } else {
+        vec![]
+    };
+    #[allow(deprecated)]
+    if !rh {
         // ... and Matrix3's / Decomposed's as the left-handed ones
         let m = Matrix3::look_at(d, u);
         let dq: Decomposed<Vector3<T>, Quaternion<T>> = Transform::look_at(e, c, u);
@@ -73,6 +76,12 @@ fn entries<T: Tier>(rh: bool, eye: [T; 3], dir: [T; 3], up: [T; 3]) -> (Vec<Entr
         let db: Decomposed<Vector3<T>, Basis3<T>> = Transform::look_at_lh(e, c, u);
         aux.borrow_mut().push(("Decomposed<Basis3>::look_at_lh/scale=1".to_string(), vec![db.scale], vec![T::one()]));
         out.push(("Decomposed<Basis3>::look_at_lh", basis3_arr(db.rot), Some(v3(db.disp))));
+    }
+    for (n, m) in deprecated_rh {
+        let (r, t) = lin4(m);
+        out.push((n, r, t));
+        let a = m4(m);
+        aux.borrow_mut().push((format!("{n}/bottom-row=0,0,0,1"), vec![a[0][3], a[1][3], a[2][3], a[3][3]], vec![T::zero(), T::zero(), T::zero(), T::one()]));
     }
     out.extend(deprecated_lh);
     (out, aux.into_inner())
@@ -144,7 +153,8 @@ fn frames3(level: usize) -> Vec<[[Ex; 3]; 3]> {
 /// exact frames: every normalisation inside cgmath is a rational square root
 fn frames<T: Tier>(rep: &mut Report) {
     let fr = frames3(rep.pick(0, 1));
-    let lambdas: [R; 3] = [(1, 2), (1, 1), (3, 1)];
+    // lengths of d: 1/2, 1, 3 and a hair off 1 (an "already a unit vector" short cut)
+    let lambdas: [R; 5] = [(1, 2), (1, 1), (3, 1), (257, 256), ((1 << 20) - 1, 1 << 20)];
     let alphas: [R; 3] = [(1, 1), (1, 2), (-2, 1)];
     // the last ones put up within 5e-3 rad (every tier) and 1e-6 rad (exact tier) of d: "not parallel" is all the statement asks
     let mut betas: Vec<R> = vec![(0, 1), (1, 1), (-3, 1), (200, 1)];
@@ -155,13 +165,14 @@ fn frames<T: Tier>(rep: &mut Report) {
         let g = alphabet::generic(3, v);
         [g[0], g[1], g[2]]
     }).collect();
-    let dims = [fr.len(), 3, 3, betas.len(), eyes.len()];
+    let dims = [fr.len(), lambdas.len(), 3, betas.len(), eyes.len()];
     rep.cases(
         "frames3",
         T::NAME,
-        &format!("{} rational frames R x dir = lambda*R e_z (3) x up = alpha*R e_y + beta*R e_z (3x{}, beta/alpha up to 200, exact tier 1e6) x {} eyes; 19 entry points", fr.len(), betas.len(), eyes.len()),
+        &format!("{} rational frames R x dir = lambda*R e_z (5 lengths: 1/2, 1, 3, 257/256, 1 - 2^-20) x up = alpha*R e_y + beta*R e_z (3x{}, beta/alpha up to 200, exact tier 1e6) x {} eyes; 19 entry points", fr.len(), betas.len(), eyes.len()),
         alphabet::product_len(&dims),
-        Guard::states(200).distinct(100).inconclusive(0.01),
+        // (a constructor that also normalises `up` leaves the rational field on most of these frames: inconclusive, not wrong)
+        Guard::states(200).distinct(100).inconclusive(if T::EXACT { 0.9 } else { 0.01 }),
         |i, ctx| {
             let d = alphabet::decode(i, &dims);
             let r = fr[d[0]];
@@ -234,27 +245,36 @@ fn grid3_at<T: Tier + Dom<M = Sh>>(rep: &mut Report, name: &str, r: i64, sc: (i3
 
 fn planar<T: Tier>(rep: &mut Report) {
     let us = alphabet::uv2();
-    let lambdas: [R; 3] = [(1, 2), (1, 1), (3, 1)];
+    let lambdas: [R; 5] = [(1, 2), (1, 1), (3, 1), (257, 256), ((1 << 20) - 1, 1 << 20)];
     let ups: Vec<[R; 2]> = (0..6).map(|v| {
         let g = alphabet::generic(2, v % 4);
         if v < 4 { [g[0], g[1]] } else { [(g[0].0 * -1, g[0].1), g[1]] }
     }).collect();
     // float tiers: also very short and very long d (2-D look_at needs |d|^2 only)
     let scales: Vec<i32> = if T::EXACT { vec![0] } else if T::NAME == "F" { vec![0, -30, 30] } else { vec![0, -250, 250] };
-    let dims = [us.len(), 3, ups.len(), scales.len()];
+    // up codes beyond the generic ones: +-d turned by +-1/256 (0.22 degrees from parallel / antiparallel, on either side)
+    let n_up = ups.len() + 4;
+    let dims = [us.len(), lambdas.len(), n_up, scales.len()];
     rep.cases(
         "planar",
         T::NAME,
-        &format!("{} rational directions x 3 lengths x {} up vectors (both sides) x scales 2^{:?}; Matrix2/Basis2 look_at and look_at_stable", us.len(), ups.len(), scales),
+        &format!("{} rational directions x 5 lengths x {} up vectors (both sides; four of them 1/256 rad from +-d) x scales 2^{:?}; Matrix2/Basis2 look_at and look_at_stable", us.len(), n_up, scales),
         alphabet::product_len(&dims),
-        Guard::states(100).distinct(50).need("up-clockwise", 5).need("up-counter-clockwise", 5),
+        Guard::states(100).distinct(50).need("up-clockwise", 5).need("up-counter-clockwise", 5).inconclusive(if T::EXACT { 0.9 } else { 0.0 }),
         |i, ctx| {
             let d = alphabet::decode(i, &dims);
             let (un, ud) = us[d[0]];
             let la = lambdas[d[1]];
             let sc: T = if scales[d[3]] == 0 { T::one() } else { num_traits::cast::<f64, T>(2f64.powi(scales[d[3]])).unwrap() };
             let dir: [T; 2] = [T::q(un[0] * la.0, ud * la.1) * sc, T::q(un[1] * la.0, ud * la.1) * sc];
-            let up: [T; 2] = vec_from_r(&ups[d[2]]);
+            let up: [T; 2] = if d[2] < ups.len() {
+                vec_from_r(&ups[d[2]])
+            } else {
+                let code = d[2] - ups.len();
+                let (sg, t) = (if code & 1 == 0 { T::one() } else { -T::one() }, if code & 2 == 0 { T::q(1, 256) } else { T::q(-1, 256) });
+                let (ux, uy) = (T::q(un[0], ud), T::q(un[1], ud));
+                [sg * ux - t * uy, sg * uy + t * ux]
+            };
             ctx.describe(|| format!("dir={:?} up={:?}", dir, up));
             ctx.out(&d);
             let unit: [T::M; 2] = [T::q(un[0], ud).lift(), T::q(un[1], ud).lift()];
